@@ -370,3 +370,49 @@ M("C18", "leaders-remove-by-equality", "archive.py", "                    del se
 # twins
 M("C18", "twin-best-flag-in", "algorithm_swarm.py", "            if flag != 2:\n                particle.features['best_cost']", "            if flag == 0 or flag == 1:\n                particle.features['best_cost']", "H")
 M("C18", "twin-clamp-order", "algorithm_swarm.py", "        velocity = min(velocity, delta_i)\n        velocity = max(velocity, -delta_i)", "        velocity = max(velocity, -delta_i)\n        velocity = min(velocity, delta_i)", "H")
+
+# ---------------------------------------------------------------- C11
+M("C11", "commit-dropped", "datastore.py", "                c.execute(self.sql_individuals_upsert, [individual.id, json.dumps(individual.to_dict())])\n                conn.commit()\n            except", "                c.execute(self.sql_individuals_upsert, [individual.id, json.dumps(individual.to_dict())])\n            except")
+M("C11", "commit-every-tenth", "datastore.py", "                c.execute(self.sql_individuals_upsert, [individual.id, json.dumps(individual.to_dict())])\n                conn.commit()\n            except", "                c.execute(self.sql_individuals_upsert, [individual.id, json.dumps(individual.to_dict())])\n                if individual.id % 10 == 0:\n                    conn.commit()\n            except")
+M("C11", "store-before-costs", "job.py", "                costs = self.problem.surrogate.evaluate(individual)\n                individual.costs = costs\n", "                costs = self.problem.surrogate.evaluate(individual)\n                self.problem.data_store.sync_individual(individual)\n                individual.costs = costs\n")
+M("C11", "store-before-state", "job.py", "                # set evaluated\n                individual.state = individual.State.EVALUATED\n                # info\n                individual.features[\"finish_time\"] = time.time()\n                # write to store\n                self.problem.data_store.sync_individual(individual)\n                return\n", "                individual.features[\"finish_time\"] = time.time()\n                self.problem.data_store.sync_individual(individual)\n                individual.state = individual.State.EVALUATED\n                return\n")
+M("C11", "no-store-call", "job.py", "                # write to store\n                self.problem.data_store.sync_individual(individual)\n                return\n", "                return\n")
+M("C11", "journal-off-threadsafe", "datastore.py", "c.execute('PRAGMA journal_mode = ON')", "c.execute('PRAGMA journal_mode = OFF')")
+M("C11", "journal-memory-threadsafe", "datastore.py", "c.execute('PRAGMA journal_mode = ON')", "c.execute('PRAGMA journal_mode = MEMORY')")
+M("C11", "row-two-statements", "datastore.py", "                c.execute(self.sql_individuals_upsert, [individual.id, json.dumps(individual.to_dict())])\n                conn.commit()\n            except", "                c.execute(\"DELETE FROM individuals WHERE id=?\", [individual.id])\n                conn.commit()\n                c.execute(self.sql_individuals_upsert, [individual.id, json.dumps(individual.to_dict())])\n                conn.commit()\n            except")
+M("C11", "error-swallowed", "datastore.py", "            except sqlite3.OperationalError as e:\n                # try again\n                self.sync_individual(individual)", "            except sqlite3.OperationalError as e:\n                pass")
+M("C11", "commit-other-connection", "datastore.py", "                c.execute(self.sql_individuals_upsert, [individual.id, json.dumps(individual.to_dict())])\n                conn.commit()\n            except", "                c.execute(self.sql_individuals_upsert, [individual.id, json.dumps(individual.to_dict())])\n                self.conn().commit()\n            except")
+M("C11", "structure-no-final-commit", "datastore.py", "            c.execute(self.sql_costs_insert, [cost[\"name\"], json.dumps(cost)])\n        conn.commit()\n", "            c.execute(self.sql_costs_insert, [cost[\"name\"], json.dumps(cost)])\n")
+M("C11", "threadsafe-default-off", "datastore.py", "def __init__(self, problem, database_name, mode=\"write\", thread_safe=True):", "def __init__(self, problem, database_name, mode=\"write\", thread_safe=False):")
+M("C11", "threadsafe-caches-conn", "datastore.py", "                    conn = sqlite3.connect(self.database_name, isolation_level='Exclusive')\n                    c = conn.cursor()\n                    c.execute('PRAGMA synchronous = 0')\n                    c.execute('PRAGMA journal_mode = ON')\n                    conn.commit()", "                    conn = sqlite3.connect(self.database_name, isolation_level='Exclusive')\n                    self._conn = conn\n                    c = conn.cursor()\n                    c.execute('PRAGMA synchronous = 0')\n                    c.execute('PRAGMA journal_mode = ON')\n                    conn.commit()")
+M("C11", "modify-after-store", "job.py", "                self.problem.data_store.sync_individual(individual)\n                return\n", "                self.problem.data_store.sync_individual(individual)\n                individual.costs = list(costs)\n                return\n")
+# twins
+M("C11", "twin-journal-wal", "datastore.py", "c.execute('PRAGMA journal_mode = ON')", "c.execute('PRAGMA journal_mode = WAL')", "H")
+M("C11", "twin-reraise", "datastore.py", "            except sqlite3.OperationalError as e:\n                # try again\n                self.sync_individual(individual)", "            except sqlite3.OperationalError as e:\n                # try again\n                return self.sync_individual(individual)", "H")
+
+# ---------------------------------------------------------------- C10
+UPS = 'sql_individuals_upsert = "INSERT INTO individuals (id, individual) VALUES(?,?) ON CONFLICT(id) DO UPDATE SET individual=excluded.individual;"'
+M("C10", "no-conflict-clause", "datastore.py", UPS, 'sql_individuals_upsert = "INSERT INTO individuals (id, individual) VALUES(?,?);"')
+M("C10", "conflict-do-nothing", "datastore.py", UPS, 'sql_individuals_upsert = "INSERT INTO individuals (id, individual) VALUES(?,?) ON CONFLICT(id) DO NOTHING;"')
+M("C10", "insert-or-ignore", "datastore.py", UPS, 'sql_individuals_upsert = "INSERT OR IGNORE INTO individuals (id, individual) VALUES(?,?);"')
+M("C10", "update-keeps-old", "datastore.py", UPS, 'sql_individuals_upsert = "INSERT INTO individuals (id, individual) VALUES(?,?) ON CONFLICT(id) DO UPDATE SET individual=individual;"')
+M("C10", "no-primary-key", "datastore.py", 'sql_individuals_table = "CREATE TABLE IF NOT EXISTS individuals (id int PRIMARY KEY, individual json not null);"', 'sql_individuals_table = "CREATE TABLE IF NOT EXISTS individuals (id int, individual json not null);"')
+M("C10", "field-dropped-writer", "individual.py", "                  'population_id': self.population_id,\n", "")
+M("C10", "field-dropped-reader", "individual.py", "        individual.population_id = dictionary['population_id']\n", "")
+M("C10", "field-renamed-writer", "individual.py", "                  'costs_signed': self.costs_signed,", "                  'signed_costs': self.costs_signed,")
+M("C10", "field-wrong-source", "individual.py", "                  'costs': list(self.costs),", "                  'costs': list(self.costs_signed),")
+M("C10", "vector-truncated", "individual.py", "                  'vector': list(self.vector),", "                  'vector': list(self.vector[:-1]),")
+M("C10", "reader-crossed", "individual.py", "        individual.costs = dictionary['costs']\n", "        individual.costs = dictionary['costs_signed']\n")
+M("C10", "custom-not-restored", "individual.py", "        individual.custom = dictionary['custom']\n", "        individual.custom = {}\n")
+M("C10", "features-overwritten-empty", "individual.py", "        output['features'] = features\n", "        output['features'] = {}\n")
+M("C10", "bound-wrong-id", "datastore.py", "                c.execute(self.sql_individuals_upsert, [individual.id, json.dumps(individual.to_dict())])\n                conn.commit()", "                c.execute(self.sql_individuals_upsert, [individual.population_id, json.dumps(individual.to_dict())])\n                conn.commit()")
+M("C10", "tag-after-sync-nsga", "algorithm_NSGAII.py", "                individual.population_id = it + 2\n                # append to problem\n                self.problem.individuals.append(individual)\n                self.problem.data_store.sync_individual(individual)\n\n\n        t = time.time() - t_s\n        self.problem.logger.info(\"NSGA_II: elapsed time: {} s\".format(t))\n\n        # sync changed individual informations\n        self.problem.data_store.sync_all()\n",
+  "                self.problem.individuals.append(individual)\n                self.problem.data_store.sync_individual(individual)\n                individual.population_id = it + 2\n\n        t = time.time() - t_s\n")
+M("C10", "sync-all-last-population-only", "datastore.py", "            for individual in self.problem.individuals:\n                c.execute(self.sql_individuals_upsert", "            for individual in self.problem.last_population():\n                c.execute(self.sql_individuals_upsert")
+M("C10", "view-write-mode", "problem.py", 'self.data_store = SqliteDataStore(self, database_name=database_name, mode="read")', 'self.data_store = SqliteDataStore(self, database_name=database_name, mode="write")')
+M("C10", "reader-skips-costs-table", "datastore.py", "        c.execute(self.sql_costs_select)\n        rows = c.fetchall()\n        for row in rows:\n            cost = json.loads(row[1])\n            self.problem.costs.append(cost)\n", "")
+M("C10", "twin-sweep-no-syncall", "algorithm_sweep.py", "        # sync changed individual informations\n        self.problem.data_store.sync_all()\n", "", "H")
+M("C10", "omopso-tag-after-last-sync", "algorithm_swarm.py", "            it += 1\n\n        t = time.time() - t_s\n        self.problem.logger.info(\"PSO: elapsed time: {} s\".format(t))\n\n        # sync changed individual informations\n        self.problem.data_store.sync_all()\n\n\nclass SMPSO", "            it += 1\n\n        for individual in individuals:\n            individual.population_id = it\n\n\nclass SMPSO")
+# twins
+M("C10", "twin-insert-or-replace", "datastore.py", UPS, 'sql_individuals_upsert = "INSERT OR REPLACE INTO individuals (id, individual) VALUES(?,?);"', "H")
+M("C10", "twin-nsga-no-syncall-but-per-individual", "algorithm_NSGAII.py", "        # sync changed individual informations\n        self.problem.data_store.sync_all()\n", "", "H")
